@@ -66,6 +66,9 @@ def vec(xs):
     return "[" + "; ".join(gennet.q(x) for x in xs) + "]"
 
 
+EVS = [-7.0, 0.0, 0, False, -7.0]      # caller-supplied error values, incl. falsy ones (case["ev"] selects)
+
+
 def slimobs(m, **kw):
     try:
         with warnings.catch_warnings():
@@ -89,7 +92,7 @@ def gen_cases(rng, tier):
         # every fourth network: many infinite bounds (unbounded problems), every fifth: many forced fluxes
         net = gennet.gen_network(rng, inf_p=0.6 if k % 4 == 0 else 0.15, forced_p=0.3 if k % 5 == 0 else 0.08)
         for solver in ("glpk", "glpk_exact"):
-            cases.append({"net": net, "solver": solver})
+            cases.append({"net": net, "solver": solver, "ev": k})
     return cases
 
 
@@ -154,9 +157,10 @@ def case_term(case):
     else:
         solt = "(Some (mkSol %s 0 [] [] []))" % STATUS.get(sol.status, "OtherSt")
     s_def, o1 = slimobs(m)
-    s_ev, o2 = slimobs(m, error_value=-7.0)
+    ev = EVS[case.get("ev", 0) % len(EVS)]
+    s_ev, o2 = slimobs(m, error_value=ev)
     s_none, o3 = slimobs(m, error_value=None)
-    obs["slim_optimize"] = {"default": o1, "error_value=-7": o2, "error_value=None": o3}
+    obs["slim_optimize"] = {"default": o1, "error_value=%r" % (ev,): o2, "error_value=None": o3}
     if sol is not None and sol.status == "optimal":
         # snapshot: later edits and optimisations must not alter the Solution already returned
         before = (sol.objective_value, sol.status, sol.fluxes.copy(), sol.reduced_costs.copy(), sol.shadow_prices.copy())
@@ -178,8 +182,8 @@ def case_term(case):
                 np.array_equal(before[3].values, sol.reduced_costs.values) and
                 np.array_equal(before[4].values, sol.shadow_prices.values))
         snap_ok = bool(same)
-    term = "(mkCase %s %s %s %s %s %s %s %s %s)" % (
-        gennet.coq_net(net), oracle, raw, solt, s_def, s_ev, s_none,
+    term = "(mkCase %s %s %s %s %s %s %s %s %s %s)" % (
+        gennet.coq_net(net), oracle, raw, solt, s_def, gennet.q(F(float(ev))), s_ev, s_none,
         "true" if acc_ok else "false", "true" if snap_ok else "false")
     has_obj = any(F(r["obj"]) != 0 for r in net["rxns"])
     return term, {"obs": obs, "nontrivial": has_obj,
